@@ -6,7 +6,7 @@ wt, i, prop, detected, result = sys.argv[1:6]
 note = sys.argv[6] if len(sys.argv) > 6 else ""
 src = os.path.join(wt, "out", i)
 meta = json.load(open(os.path.join(src, "meta.json")))
-name = "%s-%s" % (prop, i)
+name = os.environ.get("SEED_NAME") or "%s-%s" % (prop, i)
 dst = os.path.join("/verif/seeded", name)
 os.makedirs(dst, exist_ok=True)
 shutil.copy(os.path.join(src, "patch.diff"), os.path.join(dst, "patch.diff"))
